@@ -43,7 +43,7 @@ RULE = ("WSGI SendEventResponse rendezvous scenarios: producer length n in 0..4 
         "SendEventResponse on a virtual-time grid: n in 0..4 x producer delay {0,.5,1.5,4} x send delay {0,.5} x disconnect at {none, {0,.5,1,1.5,2,3}+-eps} x raise point "
         "{none,0,1} x async-generator / plain async-iterable producers. Non-trivial = the close/disconnect happens before the producer is exhausted; distinct = scenario "
         "tuple (rendezvous/grid: by construction) or the observed cross-thread line interleaving (yield injection).")
-RULE += ' Also: streaming responses answering HEAD / POST / OPTIONS / DELETE requests (the producer is consumed or closed, never left open); producers whose cleanup takes a moment (when close() has returned, the cleanup has finished); field-less events and zero-length chunks as producer steps, producers whose cleanup raises, iterator-object and iterable-object producers with their own close(), a relay still queued behind a saturated pool, ASGI send() failures combined with raising cleanup, endless producers that never await (step cap 5000). Async producers whose cleanup awaits for 0.3 / 2.5 / 7 ping intervals (it runs to its end); one event dict kept by the producer, brought up to date after a pause and yielded again. Event-stream ping intervals of 0.05 / 0.2 / 0.5 / 1.6 / 2.5 s (the interval asked for bounds the return). Producers that raise a falsy exception object; 2-5 event streams open at once on the relay pool the library ships with (none starves while another is open).'
+RULE += ' Also: streaming responses answering HEAD / POST / OPTIONS / DELETE requests (the producer is consumed or closed, never left open); producers whose cleanup takes a moment (when close() has returned, the cleanup has finished); field-less events and zero-length chunks as producer steps, producers whose cleanup raises, iterator-object and iterable-object producers with their own close(), a relay still queued behind a saturated pool, ASGI send() failures combined with raising cleanup, endless producers that never await (step cap 5000). Async producers whose cleanup awaits for 0.3 / 2.5 / 7 ping intervals (it runs to its end); one event dict kept by the producer, brought up to date after a pause and yielded again. Event-stream ping intervals of 0.05 / 0.2 / 0.5 / 1.6 / 2.5 s (the interval asked for bounds the return). Producers that raise a falsy exception object; 2-5 event streams open at once on the relay pool the library ships with (none starves while another is open). Half of the WSGI event-stream scenarios on a single-threaded server (wsgi.multithread false); producers raising an OSError subclass of their own.'
 ASSUMPTIONS = [
     "the producer's cleanup marker is synchronous (a finally that itself awaits can be cut short by asyncio cancellation: an observation, never used for a verdict)",
     "closing a WSGI response iterable on which next() was never called starts nothing and carries no expectations",
